@@ -68,9 +68,16 @@ func (h *Hooks) install(a *app.App) {
 				m.BeginBlockEntry(c, ictx)
 			}
 		}
+		var entry sdk.Context
+		if c != nil && c.observing {
+			entry, _ = ctx.CacheContext()
+		}
 		res, err := func() (r sdk.BeginBlock, err error) {
 			defer func() {
 				if rec := recover(); rec != nil {
+					if c != nil && c.observing {
+						c.failModule = attributeBegin(a, entry)
+					}
 					err = fmt.Errorf("PANIC in BeginBlocker: %v\n%s", rec, debug.Stack())
 					if c != nil {
 						c.lastPanic = err.Error()
@@ -83,12 +90,15 @@ func (h *Hooks) install(a *app.App) {
 		if c != nil && c.observing {
 			if err != nil {
 				c.phaseErr = fmt.Sprintf("beginblock: %v", err)
+				c.failModule = attributeBegin(a, entry)
 			}
 			ictx := infinite(ctx)
 			for _, m := range c.Monitors {
 				m.BeginBlockExit(c, ictx, err)
 			}
-			c.phase = PhaseTx
+			if err == nil {
+				c.phase = PhaseTx
+			}
 		}
 		return res, err
 	})
@@ -101,9 +111,16 @@ func (h *Hooks) install(a *app.App) {
 				m.EndBlockEntry(c, ictx)
 			}
 		}
+		var entry sdk.Context
+		if c != nil && c.observing {
+			entry, _ = ctx.CacheContext()
+		}
 		res, err := func() (r sdk.EndBlock, err error) {
 			defer func() {
 				if rec := recover(); rec != nil {
+					if c != nil && c.observing {
+						c.failModule = attributeEnd(a, entry)
+					}
 					err = fmt.Errorf("PANIC in EndBlocker: %v\n%s", rec, debug.Stack())
 					if c != nil {
 						c.lastPanic = err.Error()
@@ -116,6 +133,7 @@ func (h *Hooks) install(a *app.App) {
 		if c != nil && c.observing {
 			if err != nil {
 				c.phaseErr = fmt.Sprintf("endblock: %v", err)
+				c.failModule = attributeEnd(a, entry)
 			}
 			ictx := infinite(ctx)
 			for _, m := range c.Monitors {
@@ -189,6 +207,7 @@ type Chain struct {
 	txIndex   int
 	phaseErr  string
 	lastPanic string
+	failModule string
 
 	Violations []Violation
 	Rec        *Recorder
@@ -361,6 +380,7 @@ func (c *Chain) NextBlock(p BlockPlan) *BlockResult {
 	c.phase = PhasePreBlock
 	c.phaseErr = ""
 	c.lastPanic = ""
+	c.failModule = ""
 	ctx0 := c.CommittedCtx()
 	for _, m := range c.Monitors {
 		m.BeforeBlock(c, ctx0)
@@ -466,8 +486,8 @@ func (c *Chain) NextBlock(p BlockPlan) *BlockResult {
 	if ferr != nil {
 		br.Err = ferr
 		br.Phase = c.phase
-		if c.phaseErr != "" {
-			br.Phase = c.phase
+		if c.failModule != "" {
+			br.Phase = c.phase + "/" + c.failModule
 		}
 		c.Dead = true
 		return br
